@@ -8,8 +8,17 @@ U64 = 1 << 64
 class Prop(C02):
     pid = 'C15'
     props_file = 'Props/C15.v'
-    required_theorems = []
+    required_theorems = ['no_empty_destination', 'stats_eq_recount', 'no_counter_underflow', 'table_totals_eq_recount',
+                         'limit_counter_refuted', 'limit_respected_outside_known', 'limit_rejection_installs_nothing',
+                         'remove_finds_stats']
     extra_targets = ['Model/Rib.vo']
+    correspondence_name = 'Model/Rib.v step (route_stats, limit counters, Table::state) vs rustybgp_table::Table (harness/hx-rib, debug and release)'
+    trusted_base = C02.trusted_base + [
+        'a prefix-limit counter (Arc<AtomicU64>) is named by the Source token of the session it belongs to; how daemon/src/event/mod.rs PeerSession.prefix_counters '
+        'creates and hands the counters to the table is not modelled (the discipline is a hypothesis of limit_respected_outside_known: every insert, withdrawal and '
+        'purge of a session carries that session\'s counter, Table::drop ends the session)',
+        'atomic counter operations are sequential (one shard under its mutex); u64 statistics underflow is the model flag t_bad (debug panic / release wrap)']
+    assumptions = ['a Source object (allocation token) always denotes the same remote address', 'configured maxima are u32 values']
     rule = ('histories with per-session prefix limits 0..5 over 3 prefixes x 3 path ids, 3 peers sharing prefixes, filtered/unfiltered transitions, '
             'peer drop, stale/LLGR/NO_LLGR purges, limit-exceeded insertions and session restarts; non-trivial = some counter or statistic is > 0 '
             'at some step and some removal happened; distinct = distinct sequence of (statistics, counters, totals)')
